@@ -167,10 +167,9 @@ def parse_natlist(out):
     """parse the single `= [a; b; ...] : list nat` printed by Eval vm_compute"""
     import re
     from .lib import CoqFailure
-    if "=" not in out: raise CoqFailure("no result in model output: " + out[:300])
-    txt = out[out.rindex("= ") + 2:]
-    txt = txt.split(": list nat")[0]
-    return [int(x) for x in re.findall(r"\d+", txt.replace("%nat", ""))]
+    m = re.search(r"=\s*(\[.*?\])(?:%nat)?\s*:\s*list nat", out, flags=re.S)
+    if not m: raise CoqFailure("no result in model output: " + out[-300:])
+    return [int(x) for x in re.findall(r"\d+", m.group(1).replace("%nat", ""))]
 
 
 def run_chunks(ck, name, defs, runs, imports, chunk=60, workers=4):
